@@ -267,7 +267,13 @@ void h_b_assign()
 #endif
   L a; fill(a, n, vals);
   L c; fill(c, m, w);
+#if defined(NV_ALIAS) && NV_ALIAS
+  L* src = &c;
+#elif defined(NV_ALIAS)
+  L* src = &a;
+#else
   L* src = self ? &c : &a;
+#endif
   g_ctor = 0; g_dtor = 0;
   c = *src;
   if(self) { NV_CHECK(equals_model(c, m, w), "List a = a keeps the contents"); NV_REACH("b_assign.self"); }
